@@ -144,6 +144,11 @@ def single_world(case):
         if env2.get_agents_at(1, 1, 1 if nargs == 3 else 0, 0) != [b]:
             raise Violation('a query in a second world was disturbed by the world under test')
         snap = public_snapshot(model)
+        for bad in (('x', 0, 0, 0), (0, None, 0, 0), (0, 0, 0, 'wide'), (0, 0, 0, 0, [1])):
+            try:
+                env.get_agents_at(*bad)      # a refused (or oddly answered) query leaves nothing behind for the next ones
+            except Exception:      # noqa
+                pass
         for q in itertools.product(*qv):
             for lw in combos:
                 if only is not None and [list(p), list(q), list(lw)] != only:
